@@ -160,19 +160,30 @@ deriving DecidableEq, Repr
 /-- `NewManager`: a DefaultMode of 0 becomes strict -/
 def newManager (defaultMode : UInt8) : Mgr := { mode := if defaultMode = 0 then STRICT else defaultMode }
 
-/-- `SetMode` (also what `Start` publishes): `Config{DefaultMode: mode, LogViolations: 1}` into slot 0 -/
+/-- a binding record with its mode byte replaced (what `SetMode` re-Puts for every existing binding) -/
+def withMode (v : Bytes) (mode : UInt8) : Bytes :=
+  match Binding.decode v with
+  | some b => { b with mode := mode }.encode
+  | none => v
+
+/-- `SetMode` (also what `Start` publishes): `Config{DefaultMode: mode, LogViolations: 1}` into slot 0, and the
+    new mode into every existing binding (the program prefers the binding's mode to the default) -/
 def setMode (_g : Mgr) (m : Maps) (mode : UInt8) : Mgr × Maps :=
-  ({ mode := mode }, { m with config := [mode, 1, 0, 0, 0, 0, 0, 0] })
+  ({ mode := mode },
+   { m with config := [mode, 1, 0, 0, 0, 0, 0, 0],
+            bindings := m.bindings.map fun e => (e.1, withMode e.2 mode) })
 
 /-- `macToUint64(mac)` marshalled as a Go `uint64` (little-endian) -/
 def macKey (mac : Bytes) : Bytes := leBytes 8 (beNat mac)
 
-/-- `AddBinding(mac, ipv4)`: the whole record is rewritten; the address is `binary.BigEndian.Uint32(ip4)`
-    marshalled little-endian, i.e. the address bytes reversed -/
+/-- `AddBinding(mac, ipv4)`: read-modify-write of the record (a zero record if there is none): the IPv4 part and
+    the mode are set, an IPv6 part is kept; the address is `binary.BigEndian.Uint32(ip4)` marshalled
+    little-endian, i.e. the address bytes reversed -/
 def addBinding (g : Mgr) (m : Maps) (mac : Bytes) (ip : Option Bytes) : Maps :=
+  let existing : Binding := ((AMap.lookup m.bindings (macKey mac)).bind Binding.decode).getD {}
   let b : Binding := match ip with
-    | some a => { addr4 := leBytes 4 (beNat a), valid4 := 1, mode := g.mode }
-    | none => { mode := g.mode }
+    | some a => { existing with addr4 := leBytes 4 (beNat a), valid4 := 1, mode := g.mode }
+    | none => { existing with addr4 := zeros 4, valid4 := 0, mode := g.mode }
   { m with bindings := AMap.insert m.bindings (macKey mac) b.encode }
 
 /-- `AddBindingV6(mac, ipv6)`: read-modify-write of the record (a zero record if there is none) -/
@@ -190,6 +201,15 @@ def removeBinding (m : Maps) (mac : Bytes) : Maps :=
 /-- `AddAllowedRange(ip/len)`: key `{Prefixlen: len, IP: the four address bytes}`, value 1 -/
 def addAllowedRange (m : Maps) (ip : Bytes) (len : Nat) : Maps :=
   { m with ranges := lpmInsert m.ranges (leBytes 4 len ++ fit 4 ip) [1] }
+
+/-- `net.IPMask.Size()` for a 4-byte mask: the prefix length if the mask is ones followed by zeros -/
+def maskLen (mask : Bytes) : Option Nat :=
+  let v := beNat (fit 4 mask)
+  (List.range 33).find? fun n => v = 2 ^ 32 - 2 ^ (32 - n)
+
+/-- `AddAllowedRange(&net.IPNet{IP, Mask})`: refused (`none`) unless the mask is a prefix mask -/
+def addAllowedRangeMask (m : Maps) (ip mask : Bytes) : Option Maps :=
+  (maskLen mask).map fun n => addAllowedRange m ip n
 
 /-! ## what the property talks about -/
 
